@@ -15,7 +15,6 @@ import (
 	"github.com/youchainhq/go-youchain/core/state"
 	"github.com/youchainhq/go-youchain/core/types"
 	"github.com/youchainhq/go-youchain/crypto"
-	"github.com/youchainhq/go-youchain/logging"
 	"github.com/youchainhq/go-youchain/params"
 	"github.com/youchainhq/go-youchain/rlp"
 	"github.com/youchainhq/go-youchain/staking"
@@ -140,6 +139,9 @@ type Obs struct {
 	RunObs
 	// builder mode only: the validator's replay of the produced header on an identical state
 	Replay *RunObs `json:"replay,omitempty"`
+	// voter mode: what the honest voter sent; detect mode: evidences the honest detector posted
+	Emitted  []Emitted `json:"emitted,omitempty"`
+	Detected []string  `json:"detected,omitempty"`
 }
 
 type Case struct {
@@ -155,8 +157,13 @@ type Case struct {
 	SD       string   `json:"sd,omitempty"` // replay: "none", "garbage", "list"
 	PenKey   int      `json:"pen_key,omitempty"`
 	PenAmt   string   `json:"pen_amount,omitempty"`
+	VRun     *VoterRun  `json:"vrun,omitempty"`
+	DRun     *DetectRun `json:"drun,omitempty"`
 	Note     string   `json:"note,omitempty"`
 	Obs      Obs      `json:"obs"`
+
+	observed bool               // already run (generator used the result)
+	realHV   map[string][]Sign  // key/index -> votes a real honest run sent (generator only)
 }
 
 // ---- key material ----------------------------------------------------------
@@ -179,7 +186,7 @@ var (
 )
 
 func initWorld() {
-	logging.Root().SetHandler(logging.DiscardHandler())
+	installLogCounter()
 	blsMgr = bls.NewBlsManager()
 	yp, ok := params.Versions[params.YouV5]
 	if !ok {
@@ -555,6 +562,14 @@ func guard(ro *RunObs, f func()) {
 
 // observe runs the implementation on the case and fills c.Obs.
 func observe(c *Case) {
+	switch c.Mode {
+	case "voter":
+		observeVoter(c)
+		return
+	case "detect":
+		observeDetect(c)
+		return
+	}
 	w := buildWorld(c)
 	switch c.Mode {
 	case "build":
@@ -643,43 +658,17 @@ func observe(c *Case) {
 // expectedSigner is the harness' own reading of the protocol: which validator
 // of which look-back set an evidence names (nil: none).
 func expectedSigner(c *Case, e *Ev) *LbVal {
-	pr := uint64(0)
-	if e.Round > 8 {
-		pr = e.Round - 8
-	}
-	find := func(n uint64) (int, bool) {
-		for _, h := range c.Headers {
-			if h.Num == n {
-				return h.Set, true
-			}
-		}
-		return 0, false
-	}
-	if _, ok := find(pr); !ok {
-		return nil
-	}
-	cfg := c.Cfg.StakeLB
-	if e.VType == staking.Certificate {
-		cfg = params.ACoCHTFrequency * 2
-	}
-	lb := uint64(0)
-	if e.Round > cfg {
-		lb = e.Round - cfg
-	}
-	si, ok := find(lb)
-	if !ok || si < 0 || si >= len(c.Sets) {
-		return nil
-	}
-	set := sortedSet(c.Sets[si])
-	if int(e.Idx) >= len(set) {
+	set := expectedSetOf(c, e)
+	if set == nil || int(e.Idx) >= len(set) {
 		return nil
 	}
 	return &set[e.Idx]
 }
 
-// checkBLS cross-checks the symbolic validity rule with the real BLS library
-// for the key the evidence names.
-func checkBLS(c *Case) {
+// checkBLS cross-checks the symbolic validity rule (a signature by key k over
+// (hash, round, index) verifies under k for exactly that triple) with the real
+// BLS library, for the key each evidence names.  "" = agreement.
+func checkBLS(c *Case) string {
 	for i := range c.Evs {
 		e := &c.Evs[i]
 		if e.Kind != "ds" {
@@ -696,8 +685,9 @@ func checkBLS(c *Case) {
 				real = pk.Verify(payload(hashOf(s.Hash), e.Round, e.RIndex), sig) == nil
 			}
 			if real != symValid(s, sg.Bls, e) {
-				panic(fmt.Sprintf("BLS library disagrees with the ideal-signature rule: %+v under key %d: real=%v", s, sg.Bls, real))
+				return fmt.Sprintf("evidence %d: %+v under key %d: BLS library says %v", i, s, sg.Bls, real)
 			}
 		}
 	}
+	return ""
 }
